@@ -56,15 +56,71 @@ def key_class(model, v, os_, depth=0):
     return cls
 
 
+def two_element_order(v, concat):
+    """Two labels put in byte order without a sort call: a comparison of as_bytes(x[i]) with as_bytes(x[j]) decides which
+    goes first. For each outcome of that comparison (region walk + provenance restricted to the blocks it can execute)
+    the concatenated pair must be (smaller, larger)."""
+    from ..dataflow import region_walk
+    cb, ct = concat
+
+    def label_index(os_):
+        ks = set()
+        for o in os_:
+            k = [x for x in o.proj if re.fullmatch(r"\[\d+\]", str(x))]
+            ks.add(int(k[-1][1:-1]) if k else None)
+        return next(iter(ks)) if len(ks) == 1 else None
+    cands = []
+    for b, c, _ in switch_conds(v):
+        if c.kind != "cmp" or c.op not in ("<", ">", "<=", ">="):
+            continue
+        at = cond_at(v, c)
+        with v.opaque(r"AssetInfoRaw::as_bytes$"):
+            oa, ob = v.origins_of_operand(c.a, at=at), v.origins_of_operand(c.b, at=at)
+        if not (oa and ob and all(o.kind == "call" and o.a.endswith("as_bytes") for o in oa | ob)):
+            continue
+        ia = label_index(set().union(*[v.origins_of_operand(call_of(v, o)[1]["args"][0], at=v.at_term(call_of(v, o)[0])) for o in oa if call_of(v, o)]))
+        ib = label_index(set().union(*[v.origins_of_operand(call_of(v, o)[1]["args"][0], at=v.at_term(call_of(v, o)[0])) for o in ob if call_of(v, o)]))
+        if ia is None or ib is None or {ia, ib} != {0, 1}:
+            continue
+        cands.append((b, c, ia, ib))
+    if len(cands) != 1:
+        return False, "no sort call and %d byte-order comparisons of the two labels" % len(cands)
+    b0, c0, ia, ib = cands[0]
+    rows = {}
+    for truth in (True, False):
+        reach = region_walk(v, lambda bb, cc, truth=truth: truth if bb == b0 else None)
+        if cb not in reach:
+            return False, "concat unreachable when the comparison is %s" % truth
+        with v.restricted(reach):
+            order = []
+            for k in (0, 1):
+                with v.opaque(r"AssetInfoRaw::as_bytes$"):
+                    es = v.origins_of_operand(ct["args"][0], proj=("[%d]" % k,), at=v.at_term(cb))
+                inner = set()
+                for o in es:
+                    cc_ = call_of(v, o)
+                    if cc_:
+                        inner |= v.origins_of_operand(cc_[1]["args"][0], at=v.at_term(cc_[0]))
+                order.append(label_index(inner))
+        # which label is known to be the smaller one under this outcome
+        strict_small = {"<": ia, ">": ib, "<=": ia, ">=": ib}[c0.op] if truth else {"<": ib, ">": ia, "<=": ib, ">=": ia}[c0.op]
+        rows[truth] = (order, strict_small)
+        if order != [strict_small, 1 - strict_small]:
+            return False, "when as_bytes(x[%d]) %s as_bytes(x[%d]) is %s the pair is concatenated in order %s" % (ia, c0.op, ib, truth, order)
+    return True, "byte-order comparison selects (smaller, larger): %s" % rows
+
+
 def check_key_fns(ctx, model):
     fns = [("%s::state::pair_key" % F, 2), ("%s::state::trio_key" % F, 3)]
     # the pagination cursors are built by closures inside calc_range_start / trio_calc_range_start and must
     # canonicalise exactly like the keys they are compared with
+    from .common import scope_views
     for base, n in (("%s::state::calc_range_start" % F, 2), ("%s::state::trio_calc_range_start" % F, 3)):
-        cl = [x for x in model.fnsrc if x.startswith(base + "::{closure#0}") and x.count("{closure") == 1]
+        # the body that builds the cursor: the function itself or the closure it maps over `start_after`
+        cl = [sv.path for sv, ch in scope_views(model, base, depth=1) if sv.calls_to(r"::concat$")]
         if not cl:
-            ctx.missing("C19-R1", "cursor closure of %s" % base)
-        fns += [(c, n) for c in cl]
+            ctx.missing("C19-R1", "cursor construction (concat) in %s" % base)
+        fns += [(c, n) for c in cl[:1]]
     for p, n in fns:
         v = ctx.view(p, "C19-R1")
         if v is None:
@@ -73,6 +129,10 @@ def check_key_fns(ctx, model):
         concats = v.calls_to(r"::concat$")
         ok = len(sorts) == 1 and len(concats) == 1
         det = ""
+        if not sorts and len(concats) == 1 and n == 2:
+            ok2, det2 = two_element_order(v, concats[0])
+            ctx.ob("C19-R1", "%s|sorted-then-concatenated" % p, ok2, det2, v.where(concats[0][0]))
+            continue
         if ok:
             sb, st = sorts[0]
             cb, ct = concats[0]
@@ -486,19 +546,32 @@ def check_cursor_successor(ctx, model):
     below k is skipped, so k must lie below every byte an asset label can contain: labels are bech32 addresses and
     bank denoms, printable ASCII above 0x20, hence k <= 0x20 (the code uses 1). The byte is appended to the cursor
     bytes themselves and that vector is what the function returns."""
+    from .common import scope_views, vec_additions
     for p in CURSOR_FNS:
-        cl = [x for x in model.fnsrc if x.startswith(p + "::{closure#0}") and x.count("{closure") == 1]
-        if not cl or p not in model.fnsrc:
-            ctx.missing("C19-R8", "cursor function %s and its closure" % p)
+        if p not in model.fnsrc:
+            ctx.missing("C19-R8", "cursor function %s" % p)
             continue
         ctx.view(p, "C19-R8")
-        cv = ctx.view(cl[0], "C19-R8")
-        pushes = cv.calls_to(r"^std::vec::Vec::push$")
-        ks = [const_of(cv, t["args"][1], cv.at_term(b)) for b, t in pushes]
+        # the body that appends the successor byte: the function itself or the closure it maps over `start_after`
+        bodies = [(sv, vec_additions(sv, r"Vec<u8>")) for sv, ch in scope_views(model, p, depth=1)]
+        bodies = [(sv, adds) for sv, adds in bodies if adds]
+        if len(bodies) != 1:
+            ctx.missing("C19-R8", "the append of the successor byte in %s" % p)
+            continue
+        cv, adds = bodies[0]
+        ks, recv = [], []
+        for ab, at_, elem, how, at in adds:
+            k = const_of(cv, elem, at)
+            if k is None:
+                es = cv.origins_of_operand(elem, at=at)      # `extend_from_slice(&[1u8])`: a one-element literal
+                vals = {o.a for o in es if o.kind == "const"}
+                if es and len(vals) == 1 and all(o.kind == "const" for o in es) and str(next(iter(vals))).isdigit():
+                    k = int(next(iter(vals)))
+            ks.append(k)
+            recv.append(cv.origins_of_operand(at_["args"][0], at=cv.at_term(ab)) if at_ else set())
         ret = [x for x in cv.origins_of_place({"l": 0, "p": []}) if x.kind != "err"]
-        recv = [cv.origins_of_operand(t["args"][0], at=cv.at_term(b)) for b, t in pushes]
-        same = len(pushes) == 1 and bool(ret) and set(ret) == set(recv[0])
-        ok = len(pushes) == 1 and ks[0] is not None and 0 <= ks[0] <= 0x20 and same
+        same = len(adds) == 1 and bool(ret) and set(ret) == set(recv[0])
+        ok = len(adds) == 1 and ks[0] is not None and 0 <= ks[0] <= 0x20 and same
         ctx.ob("C19-R8", "%s|successor-byte" % p, ok,
                "cursor successor appends %s to %s and returns %s (one constant byte <= 0x20 appended to the returned cursor)" % (
                    [str(k) for k in ks], [sorted(map(repr, r)) for r in recv], sorted(map(repr, ret))), cv.where())
